@@ -8,7 +8,7 @@ PlainFull  == {<<"pass", 0>>, <<"ret", 1>>, <<"raise", 1>>, <<"retfail", 2>>}
 PlainSmall == {<<"ret", 1>>, <<"raise", 1>>}
 CbsOkQuick == {<<"raise", 1>>, <<"retdef", 1>>, <<"retdef", 2>>}
 CbsErrQuick == {<<"ret", 1>>, <<"retdef", 1>>, <<"retdef", 2>>}
-CbsErrFull  == PlainFull \cup {<<"retdef", t>> : t \in 1..3}
+CbsErrFull  == PlainFull \cup {<<"retdef", t>> : t \in 1..4}
 Behs(d) == Plain \cup {<<"retdef", t>> : t \in D \ {d}}
 
 \* CbsErr: the errback halves tried with addCallbacks (a config-level cut of the alphabet)
@@ -28,7 +28,9 @@ Spec == Init /\ [][Next]_vars
 Bound == TLCGet("level") <= Depth
 View == <<cfg, res, up, cbs, nId, ran>>
 
-\* vacuity witnesses: negated, each must be VIOLATED by TLC (run from DeferredAbsMC.wit*.cfg)
-NoWaiting == \A d \in D : res[d][1] # "wait"
-NoResumeSeen == ~(\E d \in D : res[d] = PyNone /\ \E i \in 1..Len(last.inv) : last.inv[i][4] # 0 /\ last.e = "fire")
+\* vacuity witness, negated: TLC must VIOLATE it (DeferredAbsMC.witness.cfg) -- a state in which one
+\* Deferred waits for another, a callback added later is pending behind the resume entry, and both carry pauses
+NoInterestingWait ==
+    ~(\E d \in D : /\ res[d][1] = "wait" /\ up[d] > 0
+                   /\ \E i \in 1..Len(cbs[res[d][2]]) : cbs[res[d][2]][i].cont = d /\ i < Len(cbs[res[d][2]]))
 =============================================================================
